@@ -199,9 +199,6 @@ func (in *kvInst) step(e kvEvent, check bool) []mc.Violation {
 			if en.Deleted {
 				bad("compaction-kept-tombstone", "compaction kept tombstone %s", en.Key)
 			}
-			if en.Version <= maxPre {
-				bad("compaction-version", "after compaction entry %s has version %d, not above the pre-compaction maximum %d", en.Key, en.Version, maxPre)
-			}
 		}
 		if pre.Left != post.Left {
 			bad("compaction-changed-left", "compaction changed the left flag")
